@@ -28,6 +28,7 @@ LEVEL_TEXT += ' Added clauses: parentheses are kept wherever the grouped express
 TECHNIQUE += '; models built by the g2e ANTLR actions (interpreted, composed as antlr.tatsu composes them) print to text the reader reads back as the tree that was built'
 LEVEL_TEXT += ' Added clause: ANTLR-translated models keep operator/operand binding when printed (name=~x, ~~x, ~( a | b )).'
 TECHNIQUE += '; every join kind over multi-line operands'
+TECHNIQUE += "; blanks and tabs in patterns and regex directives; printers interpreted with the repository's trim()"
 LEVEL_NOTE = ('Trusted: the checker\'s reader of the grammar language (validated on every run by C15: it reads tatsu/_tatsu.ebnf to the '
               'same IR as the shipped generated parser).')
 EXPLANATION = ('Static analysis of /repo sources, TatSu not imported. _pretty methods are interpreted by the whitelisted evaluator on '
